@@ -78,7 +78,7 @@ def inplace_history(rec, cls, detail, A, lam_exp):
     if n < 2:
         return
     t = rec.new("quaternion_eigenvalues", cls + ":in-place-history", detail)
-    Aq = q_from_float(A)
+    Aq = np.array(q_from_float(A))              # a writable array: the caller updates it in place below
     L.eigen.quaternion_eigenvalues(Aq)
     L.eigen.quaternion_eigenvectors(Aq)
     Aq *= 2.0                                            # same object, doubled spectrum
